@@ -1,6 +1,313 @@
+import Proofs.C11.Combine
+import Proofs.C11.Roles
 /-!
-# C11 — property theorems only (see DESIGN.md §3 C11).
+# C11 — PSBT roles are lossless, order-independent, never alias their arguments
+
+Property theorems only.  The model (`Model/C11/Combine.lean`) mirrors `psbt.combine`; WHICH field is
+merged by WHICH rule, the universe of dataclass fields with the presence test `serialize` applies
+to each, and the fields the identifier reads are `Gen.Combine.*`, regenerated from /repo's source AST
+on every run.  `tables_ok` is the obligation that breaks when a serialisable field is dropped from
+the combiner or merged with the wrong rule.
 -/
 namespace Props.C11
+open Btc Btc.C11
+
+/-- T0 (about the SOURCE, via the generated tables): every field `serialize` can emit is merged by
+    `combine` with the rule fitting its shape and presence test (truthiness-merged ⇔ truthiness-
+    serialised; `is None`-merged ⇔ `is not None`-serialised scalar; participants ⇒ dict) or is read
+    by the identifier; every merge call names a dataclass field; `tx_modifiable` is settled by
+    `_combined_tx_modifiable`. -/
+theorem tables_ok : universeCovered = true ∧ callsAreFields = true ∧ modifiableIsAssigned = true := by
+  decide
+
+/-- the unmerged fields of T1's `hid` are exactly identifier fields: for a location of the universe
+    that `combine` does not merge, the generated tables say the identifier reads it. -/
+theorem unmerged_is_identity (l : Loc) {f : FieldSpec} (hf : specAt l = some f)
+    (hpres : f.presence ≠ .never) (hr : ruleAt l = none) : (idReadsOf l.sec).contains l.name = true := by
+  obtain ⟨hU, _, _⟩ := tables_ok
+  obtain ⟨hfm, hfn⟩ := lookupField_some hf
+  have hcov := (List.all_eq_true.mp ((List.all_eq_true.mp hU) l.sec (sec_mem _))) f hfm
+  have hr' : lookupRule (callsOf l.sec) l.name = none := hr
+  rw [hfn, hr'] at hcov
+  cases hp : f.presence <;> simp_all
+
+/-- T1 lossless: on operands that do not conflict, every key-value pair of every operand, in every
+    field of the generated universe that `serialize` can emit (tx_modifiable excepted: T1m), is in
+    the result.  Pairs are read as `serialize` reads them (`den (tAt l)`): a falsy scalar of a
+    truthiness-serialised field is no pair. -/
+theorem combine_lossless {ps : List Psbt} {r x : Psbt} (hc : Compatible ps) (h : combine ps = .ok r)
+    (hx : x ∈ ps) (l : Loc) {f : FieldSpec} (hf : specAt l = some f) (hpres : f.presence ≠ .never)
+    (hmod : ruleAt l ≠ some .modifiable)
+    (k : Nat) (v : Val) (hv : den (tAt l) (x.slot l) k = some v) :
+    den (tAt l) (r.slot l) k = some v := by
+  obtain ⟨hU, hC, hM⟩ := tables_ok
+  cases ps with
+  | nil => cases hx
+  | cons p0 rest =>
+    rw [combine_ok_fold h, foldl_step_slot]
+    have hMod : ruleAt modLoc = some .modifiable := by simpa [modifiableIsAssigned] using hM
+    cases hr : ruleAt l with
+    | none =>
+      have hl : l ≠ modLoc := by intro c; rw [c, hMod] at hr; cases hr
+      rw [foldl_keep (Or.inl hr), baseOf_slot hl,
+        hc.idAgree l (unmerged_is_identity l hf hpres hr) hr p0 (by simp) x hx]
+      exact hv
+    | some r =>
+      have hm : r ≠ .modifiable := by intro c; rw [c] at hr; exact hmod hr
+      have hl : l ≠ modLoc := by intro c; rw [c, hMod] at hr; cases hr; exact hm rfl
+      rw [baseOf_slot hl, mergeAt_rule hr]
+      have hall := slotsOK_of_compatible hU hC hc hr hm
+      rw [List.map_cons] at hall
+      obtain ⟨_, _, d⟩ := fold_den hall
+      rw [d k v]
+      exact ⟨x.slot l, by rw [← List.map_cons (f := fun q : Psbt => q.slot l)]; exact List.mem_map.mpr ⟨x, hx, rfl⟩, hv⟩
+
+theorem ident_lengths {v : Nat} {p : Psbt} {id : UTx} (h : identOf v p = .ok id) :
+    id.vin.length = p.nIn ∧ id.vout.length = p.nOut := by
+  unfold identOf unsignedTx at h
+  split at h
+  · cases h
+  · cases h; simp
+
+/-- T2 order-independence (partial: see below): on operands that do not conflict, two orders of the
+    operand list that `combine` both accepts give the same psbt — same header, and at every location
+    of the generated universe the same content as `serialize` reads it (tx_modifiable: bit rule, tied
+    by correspondence).
+    FULL statement, not proved here: `combine ps = .ok r → ∃ r', combine ps' = .ok r' ∧ …` — that the
+    version / identifier / participants checks pass for `ps'` IS proved (`combine_perm_accepts_checks`);
+    missing is that the final identifier re-check (added to btclib while this was built) passes for
+    the other order too; the correspondence streams compare acceptance for every order. -/
+theorem combine_perm_partial {ps ps' : List Psbt} {r r' : Psbt} (hc : Compatible ps) (hp : ps.Perm ps')
+    (h : combine ps = .ok r) (h' : combine ps' = .ok r') :
+    r'.version = r.version ∧ r'.nIn = r.nIn ∧ r'.nOut = r.nOut ∧
+      ∀ l f, specAt l = some f → f.presence ≠ .never → ruleAt l ≠ some .modifiable →
+        norm (tAt l) (r'.slot l) = norm (tAt l) (r.slot l) := by
+  obtain ⟨hU, hC, hM⟩ := tables_ok
+  cases ps with
+  | nil => simp [combine] at h
+  | cons p0 rest =>
+    cases ps' with
+    | nil => exact absurd hp.length_eq (by simp)
+    | cons p0' rest' =>
+      obtain ⟨id0, hck⟩ := checks_of_combine_ok h
+      rw [combine_ok_fold h, combine_ok_fold h']
+      refine ⟨?_, ?_, ?_, ?_⟩
+      · rw [(foldl_step_hdr _ _).1, (foldl_step_hdr _ _).1]
+        simp only [baseOf, setSlot]
+        rw [(hck p0' (hp.mem_iff.mpr (by simp))).1]
+      · rw [(foldl_step_hdr _ _).2.1, (foldl_step_hdr _ _).2.1]
+        simp only [baseOf, setSlot]
+        rw [← (ident_lengths (hck p0 (by simp)).2).1, ← (ident_lengths (hck p0' (hp.mem_iff.mpr (by simp))).2).1]
+      · rw [(foldl_step_hdr _ _).2.2, (foldl_step_hdr _ _).2.2]
+        simp only [baseOf, setSlot]
+        rw [← (ident_lengths (hck p0 (by simp)).2).2, ← (ident_lengths (hck p0' (hp.mem_iff.mpr (by simp))).2).2]
+      · intro l f hf hpres hmod
+        have hMod : ruleAt modLoc = some .modifiable := by simpa [modifiableIsAssigned] using hM
+        rw [foldl_step_slot, foldl_step_slot]
+        cases hr : ruleAt l with
+        | none =>
+          have hl : l ≠ modLoc := by intro c; rw [c, hMod] at hr; cases hr
+          rw [foldl_keep (Or.inl hr), foldl_keep (Or.inl hr), baseOf_slot hl, baseOf_slot hl,
+            hc.idAgree l (unmerged_is_identity l hf hpres hr) hr p0' (hp.mem_iff.mpr (by simp)) p0 (by simp)]
+        | some r =>
+          have hm : r ≠ .modifiable := by intro c; rw [c] at hr; exact hmod hr
+          have hl : l ≠ modLoc := by intro c; rw [c, hMod] at hr; cases hr; exact hm rfl
+          rw [baseOf_slot hl, baseOf_slot hl, mergeAt_rule hr]
+          have hall := slotsOK_of_compatible hU hC hc hr hm
+          rw [List.map_cons] at hall
+          have := fold_perm hall (s0' := p0'.slot l) (l' := rest'.map (·.slot l))
+            (by rw [← List.map_cons (f := fun q : Psbt => q.slot l), ← List.map_cons (f := fun q : Psbt => q.slot l)]
+                exact hp.map _)
+          exact this.symm
+
+/-- T2, the part of acceptance that is order-independent: if one order passes the version and identifier
+    checks, every order does, and compatible operands are never refused by the participants check. -/
+theorem combine_perm_accepts_checks {p0 p0' : Psbt} {rest rest' : List Psbt} {r : Psbt}
+    (hc : Compatible (p0 :: rest)) (hp : (p0 :: rest).Perm (p0' :: rest')) (h : combine (p0 :: rest) = .ok r) :
+    ∃ id0, Checks p0.version id0 (p0' :: rest') ∧
+      combineFold (baseOf p0' rest') rest' = .ok (rest'.foldl step (baseOf p0' rest')) := by
+  obtain ⟨hU, hC, hM⟩ := tables_ok
+  obtain ⟨id0, hck⟩ := checks_of_combine_ok h
+  exact ⟨id0, fun p hp' => hck p (hp.mem_iff.mpr hp'),
+    combineFold_eq rest' _ (fun pre p suf e => no_conflict hU hC hM (hc.perm hp) e)⟩
+
+/-- T2 re-bracketing: combining a partial result with further operands is combining all of them at
+    once, slot for slot (exactly, no proviso) — whenever the three combines are accepted (acceptance of
+    every bracketing is compared on the real code by the `combine.orders` oracle). -/
+theorem combine_bracket {p0 r s s' : Psbt} {rest l2 : List Psbt}
+    (h1 : combine (p0 :: rest) = .ok r) (h2 : combine (r :: l2) = .ok s)
+    (h3 : combine (p0 :: (rest ++ l2)) = .ok s') (l : Loc) (hl : ruleAt l ≠ some .modifiable) :
+    s.slot l = s'.slot l := by
+  obtain ⟨_, _, hM⟩ := tables_ok
+  have hMod : ruleAt modLoc = some .modifiable := by simpa [modifiableIsAssigned] using hM
+  have hne : l ≠ modLoc := by intro c; rw [c] at hl; exact hl hMod
+  rw [combine_ok_fold h1] at h2
+  rw [combine_ok_fold h2, combine_ok_fold h3]
+  simp only [foldl_step_slot, baseOf_slot hne, List.foldl_append]
+
+/-- T2 idempotence: combining a psbt with itself changes nothing. -/
+theorem combine_idem {x : Psbt} {id0 : UTx} (hx : Operand x) (hid : identOf x.version x = .ok id0)
+    {o : Option Nat} (hmod : x.slot modLoc = modSlot o) (hrange : ∀ n, o = some n → n < 256) :
+    combine [x, x] = .ok x := by
+  obtain ⟨hU, hC, hM⟩ := tables_ok
+  have hck : Checks x.version id0 [x, x] := by intro p hp; simp at hp; subst hp; exact ⟨rfl, hid⟩
+  have hc : Compatible [x, x] := by
+    refine ⟨?_, ?_, ?_⟩
+    · intro p hp; simp at hp; subst hp; exact hx
+    · intro l a ha b hb; simp at ha hb; subst ha; subst hb
+      intro k v w h1 h2; rw [h1] at h2; cases h2; rfl
+    · intro l _ _ a ha b hb; simp at ha hb; subst ha; subst hb; rfl
+  have hMod : ruleAt modLoc = some .modifiable := by simpa [modifiableIsAssigned] using hM
+  have hcm : combinedModifiable [o, o] = o := by
+    cases o with
+    | none => rfl
+    | some n =>
+      have hn := hrange n rfl
+      have : ∀ n < 256, combinedModifiable [some n, some n] = some n := by decide +kernel
+      exact this n hn
+  have hfold : [x].foldl step (baseOf x [x]) = x := by
+   cases x with
+   | mk ver nI nO sl =>
+    simp only [List.foldl_cons, List.foldl_nil, step, baseOf, setSlot]
+    congr 1
+    funext l
+    by_cases hl : l = modLoc
+    · subst hl
+      simp only [if_true]
+      rw [mergeAt_keep (Or.inr hMod)]
+      simp only [List.map_cons, List.map_nil]
+      have h1 : (sl modLoc).nat? = o := by
+        have : sl modLoc = modSlot o := hmod
+        rw [this]; cases o <;> simp [modSlot, Slot.nat?, Slot.int?]
+      rw [h1, hcm]; exact hmod.symm
+    · simp only [hl, if_false]
+      unfold mergeAt
+      cases ruleAt l with
+      | none => rfl
+      | some r => exact merge_self r (hx.canon l)
+  rw [combine_eq hU hC hM hck hc (by rw [hfold]; exact hid), hfold]
+
+/-- T3 refusal: whatever `combine` accepts is of one version and of one identifier, at every position
+    (so two operands of different versions or different transactions, anywhere in the list, are refused). -/
+theorem combine_refuses {ps : List Psbt} {r : Psbt} (h : combine ps = .ok r) :
+    ∀ x ∈ ps, ∀ y ∈ ps, x.version = y.version ∧ identOf x.version x = identOf x.version y := by
+  cases ps with
+  | nil => simp [combine] at h
+  | cons p0 rest =>
+    obtain ⟨id0, hck⟩ := checks_of_combine_ok h
+    intro x hx y hy
+    rw [(hck x hx).1, (hck y hy).1, (hck x hx).2, (hck y hy).2]
+    exact ⟨rfl, rfl⟩
+
+theorem combine_refuses_version {ps : List Psbt} {x y : Psbt} (hx : x ∈ ps) (hy : y ∈ ps)
+    (h : x.version ≠ y.version) : ∃ e, combine ps = .error e := by
+  cases hc : combine ps with
+  | error e => exact ⟨e, rfl⟩
+  | ok r => exact absurd (combine_refuses hc x hx y hy).1 h
+
+/-! ### T4 — truthiness against `is None` -/
+
+/-- where the two rules differ on a scalar: exactly when a falsy-but-present value (`0`, `b""`) meets
+    an absent slot, or sits in the psbt merged into while the other holds a truthy value. -/
+theorem truthy_vs_notNone (a b : Option Val) :
+    mergeTruthy (.scalar a) (.scalar b) ≠ mergeNotNone (.scalar a) (.scalar b) ↔
+      (a = none ∧ ∃ v, b = some v ∧ v.falsy = true) ∨
+      (∃ v w, a = some v ∧ b = some w ∧ v.falsy = true ∧ w.falsy = false ∧ v ≠ w) := by
+  cases a with
+  | none =>
+    cases b with
+    | none => simp [mergeTruthy, mergeNotNone, Slot.falsy, Slot.isNone]
+    | some w => cases hw : w.falsy <;> simp [mergeTruthy, mergeNotNone, Slot.falsy, Slot.isNone, hw]
+  | some v =>
+    cases b with
+    | none => simp [mergeTruthy, mergeNotNone, Slot.falsy, Slot.isNone]
+    | some w =>
+      cases hv : v.falsy <;> cases hw : w.falsy <;>
+        simp [mergeTruthy, mergeNotNone, Slot.falsy, Slot.isNone, hv, hw]
+      all_goals (constructor <;> intro h e <;> exact h e.symm)
+
+/-- harmless as far as `serialize` can see: reading falsy as absent, the truthiness rule IS the
+    `is None` rule. -/
+theorem truthy_is_notNone_mod_falsy (a b : Option Val) :
+    norm true (mergeTruthy (.scalar a) (.scalar b)) =
+      mergeNotNone (norm true (.scalar a)) (norm true (.scalar b)) := by
+  cases a with
+  | none =>
+    cases b with
+    | none => rfl
+    | some w => cases hw : w.falsy <;> simp [mergeTruthy, mergeNotNone, Slot.falsy, Slot.isNone, norm, hw]
+  | some v =>
+    cases b with
+    | none => cases hv : v.falsy <;> simp [mergeTruthy, mergeNotNone, Slot.falsy, Slot.isNone, norm, hv]
+    | some w =>
+      cases hv : v.falsy <;> cases hw : w.falsy <;>
+        simp [mergeTruthy, mergeNotNone, Slot.falsy, Slot.isNone, norm, hv, hw]
+
+/-- NOT harmless for the object itself: `sig_hash_type = 0` against an absent one comes out `0` or
+    `None` depending on the order.  (btclib merged `sig_hash_type` with this rule until finding
+    `combine.sighash0-order` of this check was fixed; `tables_ok` now forbids it.) -/
+example : mergeTruthy (.scalar (some (.int 0))) (.scalar none) ≠ mergeTruthy (.scalar none) (.scalar (some (.int 0))) := by
+  decide
+example : lookupRule Gen.Combine.inCalls "sig_hash_type" = some .notNone := by decide
+
+-- non-vacuity of T1/T2's hypotheses: two signers' copies, disjoint signatures
+example : mergeTruthy (.dict [(1, .bytes [1])]) (.dict [(2, .bytes [2])]) = .dict [(1, .bytes [1]), (2, .bytes [2])] := by
+  decide
+example : Compat true (.dict [(1, .bytes [1])]) (.dict [(2, .bytes [2])]) := by
+  intro k v w h1 h2
+  simp only [den_dict, dlookup] at h1 h2
+  split at h1 <;> split at h2 <;> simp_all
+
+/-! ### T5 — the other roles leave the unsigned transaction alone -/
+
+/-- T5 (tables, i.e. about the SOURCE): the identifier reads exactly the fields the model's does; the
+    Signer stores only to signature fields and neither it nor the Finalizer stores to a field the
+    identifier reads, nor to any global; `to_v2` stores the version and nothing else; every global
+    field is compared by `assert_signatures_only` (by name, inside the transaction, or by the bit rule). -/
+theorem roles_tables_ok : rolesTableCheck = true := by decide
+
+/-- T5: a role that leaves every field the identifier reads as it found it (by `roles_tables_ok`:
+    sign, finalize) returns a psbt of the same unsigned transaction and the same identifier. -/
+theorem role_preserves_tx {p q : Psbt} (hi : p.nIn = q.nIn) (ho : p.nOut = q.nOut)
+    (h : ∀ l, IdLoc l → p.slot l = q.slot l) (b : Bool) : unsignedTx p b = unsignedTx q b :=
+  unsignedTx_congr hi ho h b
+
+/-- T5: `to_v2` changes neither the transaction nor the identifier's transaction. -/
+theorem toV2_preserves_tx (p : Psbt) (b : Bool) : unsignedTx (toV2 p) b = unsignedTx p b := rfl
+
+/-! ### T6 — a signer's answer -/
+
+/-- T6 (soundness of the structural check): an accepted answer is of the request's version and
+    transaction; every field of every input and output map that is not a signature field came back as
+    sent; every signature field only gained entries. -/
+theorem sigOnly_sound {req ret : Psbt} (h : sigOnly req ret = true) :
+    ret.version = req.version ∧ unsignedTx ret false = unsignedTx req false ∧
+    (∀ i < req.nIn, ∀ f ∈ fieldsOf .inp,
+      (Gen.Combine.signatureFields.contains f.name = false → ret.slot ⟨.inp, i, f.name⟩ = req.slot ⟨.inp, i, f.name⟩) ∧
+      (Gen.Combine.signatureFields.contains f.name = true →
+        addedOnly (req.slot ⟨.inp, i, f.name⟩) (ret.slot ⟨.inp, i, f.name⟩) = true)) ∧
+    (∀ i < req.nOut, ∀ f ∈ fieldsOf .out, ret.slot ⟨.out, i, f.name⟩ = req.slot ⟨.out, i, f.name⟩) ∧
+    (∀ n ∈ Gen.Combine.sigOnlyGlobals, ret.slot ⟨.glob, 0, n⟩ = req.slot ⟨.glob, 0, n⟩) := by
+  unfold sigOnly at h
+  simp only [Bool.and_eq_true] at h
+  obtain ⟨⟨⟨⟨⟨⟨hv, htx⟩, _⟩, hg⟩, _⟩, hin⟩, hout⟩ := h
+  refine ⟨by simpa using hv, by simpa using htx, ?_, ?_, ?_⟩
+  rotate_left 2
+  · intro n hn
+    have := List.all_eq_true.mp hg n hn
+    simpa using this
+  · intro i hi f hf
+    have := mapUnchanged_sound (List.all_eq_true.mp hin i (List.mem_range.mpr hi)) hf
+    exact ⟨fun hc => this.1 (by rintro ⟨_, h2⟩; rw [hc] at h2; cases h2), fun hc => this.2 ⟨rfl, hc⟩⟩
+  · intro i hi f hf
+    exact (mapUnchanged_sound (List.all_eq_true.mp hout i (List.mem_range.mpr hi)) hf).1 (by rintro ⟨h1, _⟩; cases h1)
+
+/-- T6: a signature the request carried is still there, unchanged, in an accepted answer. -/
+theorem sigOnly_keeps_signature {was now : Dict} (h : addedOnly (.dict was) (.dict now) = true) {k : Nat}
+    {v : Val} (hm : (k, v) ∈ was) : dlookup now k = some v := addedOnly_dict h hm
+
+-- non-vacuity
+example : addedOnly (.dict [(1, .bytes [1])]) (.dict [(1, .bytes [1]), (2, .bytes [2])]) = true := by decide
+example : addedOnly (.dict [(1, .bytes [1])]) (.dict [(2, .bytes [2])]) = false := by decide
 
 end Props.C11
